@@ -9,6 +9,7 @@ import (
 	"flag"
 	"fmt"
 	"os"
+	"strings"
 
 	"verifharness/lib"
 )
@@ -32,9 +33,13 @@ func main() {
 	tier := fs.String("tier", "quick", "tier")
 	replay := fs.String("replay", "", "replay file (JSON with a `history` array)")
 	drv := fs.String("driver", "", "path of the Lean driver")
+	scn := fs.String("scn", "", "bounded-exhaustive scenarios to run (comma separated; default: all of the part)")
 	_ = fs.Parse(os.Args[2:])
 	if *drv != "" {
 		lib.DriverPath = *drv
+	}
+	if *scn != "" {
+		smallFilter = strings.Split(*scn, ",")
 	}
 	p, ok := parts[name]
 	if !ok {
